@@ -3,6 +3,7 @@ package props
 import (
 	"context"
 	"fmt"
+	"runtime"
 	"sync"
 	"time"
 
@@ -117,13 +118,90 @@ func runC12(c *Ctx) error {
 		runs[i].Key = fmt.Sprintf("%+v", cs)
 	}
 	Parallel(len(cases), func(i int) { c12Run(runs[i], cases[i]) })
+	// several messages at once through the same wrapped handler
+	ng := c.Pick(4, 60)
+	type grp struct {
+		runs  []*tr.Run
+		cases []c12Case
+	}
+	var groups []grp
+	for gi := 0; gi < ng; gi++ {
+		mr := 3 + gi%2
+		base := c12Case{MaxRetries: mr, Initial: time.Duration(10+5*(gi%3)) * ms, MaxI: time.Second, MNum: 2, MDen: 1, RFNum: 0, RFDen: 1, AttDur: ms, Class: "concurrent-messages"}
+		var g grp
+		for k, fn := range []int{-1, 1, 2}[:2+gi%2] {
+			cs := base
+			cs.FailN = fn
+			_ = k
+			run := T.NewRun(cs.Class, cs.cfg())
+			run.Key = fmt.Sprintf("group%d/%d/%+v", gi, k, cs)
+			g.runs = append(g.runs, run)
+			g.cases = append(g.cases, cs)
+		}
+		groups = append(groups, g)
+	}
+	Parallel(len(groups), func(i int) { c12Group(groups[i].runs, groups[i].cases, time.Duration(12+7*(i%3))*ms) })
+	c.AddStat("concurrent_groups", ng)
 	c.AddStat("plain_cases", nplain)
 	c.AddStat("context_and_elapsed_cases", len(cases)-nplain-nr)
 	c.AddStat("random_cases", nr)
 	return nil
 }
 
-func c12Run(r *tr.Run, cs c12Case) {
+// c12Group sends several messages concurrently (staggered) through ONE wrapped handler: the back-off of one
+// message must not depend on what the others are doing.
+func c12Group(runs []*tr.Run, cases []c12Case, stagger time.Duration) {
+	sh := &c12Shared{byMsg: map[string]message.HandlerFunc{}, byGo: map[uint64]func(int, time.Duration){}}
+	cs := cases[0]
+	rt := middleware.Retry{
+		MaxRetries: cs.MaxRetries, InitialInterval: cs.Initial, MaxInterval: cs.MaxI, Multiplier: float64(cs.MNum) / float64(cs.MDen),
+		MaxElapsedTime: cs.MaxElapsed, RandomizationFactor: float64(cs.RFNum) / float64(cs.RFDen),
+		OnRetryHook: func(k int, d time.Duration) {
+			sh.mu.Lock()
+			f := sh.byGo[goid()]
+			sh.mu.Unlock()
+			if f != nil {
+				f(k, d)
+			}
+		},
+	}
+	sh.wrapped = rt.Middleware(func(msg *message.Message) ([]*message.Message, error) {
+		sh.mu.Lock()
+		h := sh.byMsg[msg.UUID]
+		sh.mu.Unlock()
+		return h(msg)
+	})
+	var wg sync.WaitGroup
+	for i := range runs {
+		i := i
+		wg.Add(1)
+		go func() {
+			defer wg.Done()
+			time.Sleep(time.Duration(i) * stagger)
+			c12RunShared(runs[i], cases[i], sh)
+		}()
+	}
+	wg.Wait()
+}
+
+type c12Shared struct {
+	mu      sync.Mutex
+	wrapped message.HandlerFunc
+	byMsg   map[string]message.HandlerFunc
+	byGo    map[uint64]func(int, time.Duration)
+}
+
+func goid() uint64 {
+	var buf [64]byte
+	n := runtime.Stack(buf[:], false)
+	var id uint64
+	fmt.Sscanf(string(buf[:n]), "goroutine %d ", &id)
+	return id
+}
+
+func c12Run(r *tr.Run, cs c12Case) { c12RunShared(r, cs, nil) }
+
+func c12RunShared(r *tr.Run, cs c12Case, sh *c12Shared) {
 	t0 := time.Now()
 	now := func() int64 { return int64(time.Since(t0) / time.Microsecond) }
 	ctx, cancel := context.WithCancel(context.Background())
@@ -173,12 +251,26 @@ func c12Run(r *tr.Run, cs c12Case) {
 	}
 	msg := message.NewMessage(fmt.Sprintf("r%d", r.ID), nil)
 	msg.SetContext(ctx)
+	call := rt.Middleware(h)
+	if sh != nil {
+		sh.mu.Lock()
+		sh.byMsg[msg.UUID] = h
+		sh.mu.Unlock()
+		call = sh.wrapped
+	}
 	done := make(chan struct{})
 	go func() {
 		defer close(done)
+		if sh != nil {
+			g := goid()
+			sh.mu.Lock()
+			sh.byGo[g] = rt.OnRetryHook
+			sh.mu.Unlock()
+			defer func() { sh.mu.Lock(); delete(sh.byGo, g); sh.mu.Unlock() }()
+		}
 		var outs []*message.Message
 		var err error
-		p, v := Guarded(func() { outs, err = rt.Middleware(h)(msg) })
+		p, v := Guarded(func() { outs, err = call(msg) })
 		if p {
 			r.Emit("panic", "val", v)
 			return
